@@ -94,6 +94,7 @@ func RandomSpec(r *sim.Rand) DocSpec {
 	}
 	if on(density) {
 		sp.InheritAt = 1 + r.Intn(sp.TreeDepth)
+		sp.InheritVary = sp.TreeDepth >= 2 && r.Bool()
 	}
 	sp.ResIndirect = on(density)
 	sp.FontPartsIndirect = on(density)
@@ -158,6 +159,7 @@ func (sp DocSpec) Features() []string {
 	add(sp.TreeDepth > 2, "tree=deep")
 	add(sp.InheritAt == 1, "inherit=parent")
 	add(sp.InheritAt >= 2 && sp.TreeDepth >= 2, "inherit=grandparent")
+	add(sp.InheritAt >= 1 && sp.InheritVary && sp.TreeDepth >= 2, "inherit=varied")
 	add(sp.ResIndirect, "res=indirect")
 	add(sp.FontPartsIndirect, "fontparts=indirect")
 	add(sp.Rotate != 0, "rotate")
@@ -476,6 +478,13 @@ func (sp DocSpec) Shrinks() []DocSpec {
 		return true
 	})
 	try(func(s *DocSpec) bool {
+		if !s.InheritVary {
+			return false
+		}
+		s.InheritVary = false
+		return true
+	})
+	try(func(s *DocSpec) bool {
 		if s.InheritAt == 0 {
 			return false
 		}
@@ -625,6 +634,15 @@ func SpecWithFeatures(features []string) (DocSpec, bool) {
 			sp.TreeDepth = 2
 		case f == "tree=deep":
 			sp.TreeDepth = 3
+		case f == "inherit=varied":
+			if sp.TreeDepth < 2 {
+				sp.TreeDepth = 2
+			}
+			if sp.InheritAt == 0 {
+				sp.InheritAt = 1
+			}
+			sp.InheritVary = true
+			sp.Pages = 4
 		case f == "inherit=parent":
 			sp.InheritAt = 1
 		case f == "inherit=grandparent":
@@ -758,6 +776,8 @@ func (sp DocSpec) Without(f string) DocSpec {
 		if c.InheritAt > 1 {
 			c.InheritAt = 1
 		}
+	case f == "inherit=varied":
+		c.InheritVary = false
 	case f == "inherit=parent", f == "inherit=grandparent":
 		c.InheritAt = 0
 	case f == "res=indirect":
@@ -812,6 +832,6 @@ func (sp DocSpec) PlainStorage() DocSpec {
 	c.Shuffle, c.Renumber, c.SplitXRef = false, false, false
 	c.LenMode, c.LenInStm, c.Filter, c.Predictor, c.Split = 0, false, 0, 0, 0
 	c.ContentsArr, c.ContentsRef = false, false
-	c.TreeDepth, c.InheritAt, c.ResIndirect, c.FontPartsIndirect, c.KidsRef = 1, 0, false, false, false
+	c.TreeDepth, c.InheritAt, c.InheritVary, c.ResIndirect, c.FontPartsIndirect, c.KidsRef = 1, 0, false, false, false, false
 	return c
 }
